@@ -23,18 +23,18 @@ Local Open Scope Z_scope.
 
 Theorem C13_reference_equality_is_content_equality : forall L, wf_plist L = true ->
   forall t1 t2 fc1 fc2, tuple_ok L fc1 0 t1 -> tuple_ok L fc2 0 t2 ->
-  forall m1 m2 a1 a2, elem_at L m1 a1 t1 -> elem_at L m2 a2 t2 ->
+  forall m1 m2 a1 a2, elem_at L m1 a1 t1 -> elem_at L m2 a2 t2 -> noflt L ->
   (elem_equal L m1 (ref_fl L t1 a1) m2 (ref_fl L t2 a2) = true <-> t1 = t2).
 Proof. exact elem_equal_content. Qed.
 Print Assumptions C13_reference_equality_is_content_equality.
 
-Theorem C13_vector_elements_equal_iff_same_tuple : forall L, wf_plist L = true ->
+Theorem C13_vector_elements_equal_iff_same_tuple : forall L, wf_plist L = true -> noflt L ->
   forall v1 l1 v2 l2 i j, Rep L v1 l1 -> Rep L v2 l2 -> (i < length l1)%nat -> (j < length l2)%nat ->
   (ref_equal L v1 (Z.of_nat i) v2 (Z.of_nat j) = true <-> nth i l1 [] = nth j l2 []).
 Proof. exact ref_equal_content. Qed.
 Print Assumptions C13_vector_elements_equal_iff_same_tuple.
 
-Theorem C13_vector_equality_elementwise_is_content_equality : forall L, wf_plist L = true ->
+Theorem C13_vector_equality_elementwise_is_content_equality : forall L, wf_plist L = true -> noflt L ->
   forall v1 l1 v2 l2, Rep L v1 l1 -> Rep L v2 l2 ->
   (forallb eqm L && padfree L && list_eqb (v_fixed v1) (v_fixed v2)) = false ->
   (vec_equal L v1 v2 = true <-> l1 = l2).
@@ -55,7 +55,7 @@ Print Assumptions C13_vector_equality_fast_path_is_content_equality.
 (* BOTH paths: in every pair of represented states - hence after any two valid histories
    (C01), whatever the capacities, junk, allocators or histories - vector == is equality of
    the two lists of tuples, nothing else *)
-Theorem C13_vector_equality_is_content_equality : forall L v1 l1 v2 l2, wf_plist L = true ->
+Theorem C13_vector_equality_is_content_equality : forall L v1 l1 v2 l2, wf_plist L = true -> noflt L ->
   Rep L v1 l1 -> Rep L v2 l2 -> (vec_equal L v1 v2 = true <-> l1 = l2).
 Proof. exact vec_equal_content. Qed.
 Print Assumptions C13_vector_equality_is_content_equality.
@@ -79,9 +79,39 @@ Print Assumptions C13_reference_equality_symmetric.
 
 (* a field compared object by object is equal exactly when it holds the same objects,
    the same number of them included (four-iterator std::equal) *)
-Theorem C13_field_equality_is_content_equality : forall a b : list (list Z), span_eq a b = true <-> a = b.
+Theorem C13_field_equality_is_content_equality : forall t, t <> TFlt ->
+  forall a b : list (list Z), span_eq t a b = true <-> a = b.
 Proof. exact span_eq_eq. Qed.
 Print Assumptions C13_field_equality_is_content_equality.
+
+(* lists WITH floating-point fields (float / double: fundamental, not integral, so never on a
+   memcmp path): two elements compare equal exactly when every field holds objects that are
+   equal under the value type's own == - identity of the bytes for every other type, equality
+   of the IEEE values for floats (+0 == -0 although the bytes differ).  The model compares
+   floats through the sign-magnitude key Proxy.fkey; NaN bit patterns are outside its domain
+   (C13 demands a reflexive ==), and on everything else the key comparison IS the IEEE one *)
+Theorem C13_reference_equality_is_field_equivalence : forall L, wf_plist L = true ->
+  forall t1 t2 fc1 fc2, tuple_ok L fc1 0 t1 -> tuple_ok L fc2 0 t2 ->
+  forall m1 m2 a1 a2, elem_at L m1 a1 t1 -> elem_at L m2 a2 t2 ->
+  (elem_equal L m1 (ref_fl L t1 a1) m2 (ref_fl L t2 a2) = true <->
+   forall j, (j < length L)%nat -> span_eq (pty (nth j L pparam0)) (nth j t1 []) (nth j t2 []) = true).
+Proof. exact elem_equal_content_eqv. Qed.
+Print Assumptions C13_reference_equality_is_field_equivalence.
+
+Theorem C13_float_comparison_is_ieee_off_nan : forall a b, fnan a = false -> fnan b = false ->
+  ieee_eq a b = obj_eq TFlt a b /\ ieee_lt a b = obj_lt TFlt a b.
+Proof. exact ieee_agrees. Qed.
+Print Assumptions C13_float_comparison_is_ieee_off_nan.
+
+(* +0.0f and -0.0f (bytes 00 00 00 00 / 00 00 00 80) are equal and unordered; 1.0f < 2.0f;
+   -1.0f < +0.0f; 0x7FC00000 is a NaN, 0x7F800000 (infinity) is not *)
+Example C13_float_values :
+  obj_eq TFlt [0;0;0;0] [0;0;0;128] = true /\ obj_lt TFlt [0;0;0;0] [0;0;0;128] = false /\
+  obj_lt TFlt [0;0;0;128] [0;0;0;0] = false /\
+  obj_lt TFlt [0;0;128;63] [0;0;0;64] = true /\ obj_lt TFlt [0;0;128;191] [0;0;0;0] = true /\
+  fnan [0;0;192;127] = true /\ fnan [0;0;128;127] = false /\ fnan [0;0;0;0;0;0;240;127] = false /\
+  fnan [1;0;0;0;0;0;240;127] = true.
+Proof. vm_compute. repeat split. Qed.
 
 (* != is the negation of ==, <= / >= the negations of > / < : how the library derives them *)
 Theorem C13_not_equal_is_negation : forall L v1 v2,
